@@ -98,6 +98,8 @@ sys.exit(0 if repr(got) == {repr(got)!r} and False else 1)
 
     # (b) handles returned by the API
     api = api_handles(fail)
+    api.pop("_history", None)
+    violations += api.pop("violations", [])
     emit({
         "name": "bounded.c16",
         "kind": "exhaustive window for indexing (differential check of the proof) + API handle counts (bounded stand-in)",
@@ -228,6 +230,64 @@ def api_handles(fail):
         g2 = m2.define_main([tys.Bool])
         c = g2.call(fr, *g2.inputs(), instantiation=tys.FunctionType([tys.Bool], outs), type_args=[tys.SequenceArg([t.type_arg() for t in outs])])
         check(f"call of a row-polymorphic function instantiated with {len(outs)} outputs", c, len(outs))
+    # histories: a handle's count is never inherited from a node that had the index before (delete_node
+    # frees the index, the next node takes it): without a count a handle indexes freely and refuses to iterate
+    from hugr.hugr.node_port import OutPort
+
+    def history(n_old, adder):
+        """(old handle, new handle) of the history: add a node with n_old outputs, delete it, add a node without a count"""
+        dd = Dfg(tys.Bool)
+        (bb,) = dd.inputs()
+        hh = dd.hugr
+        old = hh.add_node(ops.Noop(tys.Bool), dd.parent_node, num_outs=n_old)
+        hh.delete_node(old)
+        if adder == "add_node":
+            new = hh.add_node(ops.Noop(tys.Bool), dd.parent_node)
+        elif adder == "add_const":
+            new = hh.add_const(val.TRUE, dd.parent_node)
+        else:
+            new = dd.add_nested(bb)
+        return old, new
+
+    def unknown_count(node):
+        try:
+            list(node)
+            got = "iterates"
+        except ValueError:
+            got = "ValueError"
+        except Exception as e:  # noqa: BLE001
+            got = type(e).__name__
+        try:
+            idx_ok = [node[0], node[7]] == [OutPort(node.to_node(), 0), OutPort(node.to_node(), 7)]
+        except Exception as e:  # noqa: BLE001
+            idx_ok = type(e).__name__
+        return got, idx_ok
+    out["_history"] = (history, unknown_count)
+
+    for n_old in (0, 1, 3):
+        for adder in ("add_node", "add_const", "add_nested before set_outputs"):
+            old, new = history(n_old, adder)
+            out["evaluations"] += 1
+            if new.to_node().idx == old.idx:
+                got = unknown_count(new)
+                if got != ("ValueError", True):
+                    from bounded.util import write_replay_script
+                    what = f"{adder} taking the index of a deleted node that had {n_old} outputs: iteration -> {got[0]} (ValueError expected), indexing ok: {got[1]}"
+                    script = write_replay_script("C16", f"bounded_history_{n_old}_{adder.split()[0]}", what, f"""
+from bounded.c16 import api_handles
+res = api_handles(lambda *a: None)
+history, unknown_count = res["_history"]
+old, new = history({n_old}, {adder!r})
+got = unknown_count(new)
+print("handle", new, "after a deleted handle with {n_old} outputs:", got)
+sys.exit(0 if got == ("ValueError", True) else 1)
+""")
+                    out.setdefault("violations", []).append({"clause": "handle without a known count: " + what[:150], "replay": script})
+            # and a count given at creation wins over whatever the index had before
+            hh2 = Hugr()
+            o2 = hh2.add_node(ops.Noop(tys.Bool), num_outs=n_old)
+            hh2.delete_node(o2)
+            check(f"add_node(num_outs={n_old + 1}) taking the index of a deleted node that had {n_old}", hh2.add_node(ops.Noop(tys.Bool), num_outs=n_old + 1), n_old + 1)
     out["programs"] = out["evaluations"]
     return out
 
